@@ -68,8 +68,18 @@ def parseMap (s : String) : List (Nat × Nat) :=
     | [a, b] => some (natOf a, natOf b)
     | _ => none
 
+/-- `coreChars` (what `chars_chunk_indep` talks about) against the full port's stream, modulo the BOM that `start` skips. -/
+def coreAgrees (doc : Array Nat) (scheme : String) : Bool :=
+  let read := schemeRead doc scheme
+  let fuel := doc.size + 2
+  let core := coreChars read fuel 0 ⟨0, []⟩
+  let core := match core with
+    | (0, cp, _) :: rest => if cp == 0xFEFF then rest else core
+    | _ => core
+  decide (core = lexStream read fuel)
+
 def runDrive (s : St) : String :=
-  let base := s!"{s.did} kind={s.kind}"
+  let base := s!"{s.did} kind={s.kind}" ++ (if s.kind == "chunk" then s!" core={if coreAgrees s.doc s.param then "ok" else "bad"}" else "")
   match s.canonTree with
   | none => s!"{base} eq=BADINPUT cause=other"
   | some canon =>
